@@ -270,4 +270,81 @@ example : ∃ outA outB,
     (by simp) (by decide) minVote_child minVote_orderBlind rfl (by decide) (by decide) (by decide)
     (by decide)
 
+/-! ### C17 `flatten_eq` ∘ C10 "flatten = build from the leaf column" -/
+
+/-- "Mapping with flattening gives at the leaf level exactly the result of
+mapping against A ONE-LEVEL TAXONOMY OF THE LEAVES ..., and every coarser level
+is the leaf's ancestor."
+
+Reference A: the taxonomy built (`get_taxonomy_tree`) from the per-cell label
+columns `cols` (nested, ≥ 1 cell), mapped with `flatten = True`.  Reference B:
+the one-level taxonomy built from the LEAF COLUMN ALONE (same cells, all other
+columns removed), mapped without flattening.  `flatten()` of taxonomy A IS
+taxonomy B (`Bridge.flatten_fromRecords_eq`: equal, not only up to order — so,
+unlike `drop_eq_reference_without_level`, no hypothesis on the order
+sensitivity of the oracle is needed).  Both runs SUCCEED, return the same cells
+in the same order with the identical leaf-level dict, and in run A every coarser
+level is the copy of the level below whose assignment is its parent in taxonomy
+A, flagged not directly assigned. -/
+theorem flatten_eq_reference_leaf_column {κ} (cols : List Level) (recs : List (List Node))
+    (cfg : Config) (vote : Oracle κ) (ids : List CellId) (cells : List κ) (order : List Nat)
+    (hc : cols.Nodup) (hne : cols ≠ []) (hr : RecsOK cols recs) (hn : Nested cols recs)
+    (hrec : recs ≠ [])
+    (hv : VoteOK (fromRecordsRaw [cols.getLast hne] (recs.map (fun r => [r.getLastD 0]))) vote)
+    (hlen : ids.length = cells.length) (hnd : ids.Nodup)
+    (hproc : 1 ≤ cfg.nProc) (hcs : 1 ≤ cfg.chunkSize)
+    (horder : order.Perm (List.range
+      (chunks cells.length (effChunk cells.length cfg.nProc cfg.chunkSize)).length)) :
+    ∃ outA outB,
+      mapPipeline (fromRecordsRaw cols recs) { cfg with dropLevel := none, flatten := true } vote
+        ids cells order = .ok outA ∧
+      mapPipeline (fromRecordsRaw [cols.getLast hne] (recs.map (fun r => [r.getLastD 0])))
+        { cfg with dropLevel := none, flatten := false } vote ids cells order = .ok outB ∧
+      ∀ (j : Nat) (id : CellId) (c : κ), ids[j]? = some id → cells[j]? = some c →
+        ∃ a b, outA[j]? = some a ∧ outB[j]? = some b ∧ a.cellId = b.cellId ∧
+          a.levels.lookup (cols.getLast hne) = b.levels.lookup (cols.getLast hne) ∧
+          (b.levels.lookup (cols.getLast hne)).isSome ∧
+          ∀ cp ∈ pairsOf cols.reverse,
+            ∃ ec pn, a.levels.lookup cp.1 = some ec ∧
+              (fromRecordsRaw cols recs).childToParent cp.1 ec.assignment = some pn ∧
+              a.levels.lookup cp.2 = some (inferred ec pn) := by
+  have w0 : WF (fromRecordsRaw cols recs) := fromRecordsRaw_wf hc hne hr hn hrec
+  have hwf0 := WF_wfb w0
+  have hleaf : (fromRecordsRaw cols recs).leafLevel = some (cols.getLast hne) :=
+    List.getLast?_eq_some_getLast hne
+  have e := flatten_fromRecords_eq hc hne hr (recs := recs)
+  rw [← e] at hv ⊢
+  obtain ⟨⟨outA, hA⟩, ⟨outB, hB⟩⟩ := flatten_both_succeed _ cfg vote _ ids cells order hleaf hwf0 hv
+    hlen hnd hproc hcs horder
+  refine ⟨outA, outB, hA, hB, ?_⟩
+  intro j id c hid hcell
+  exact flatten_eq _ cfg vote _ ids cells order hleaf hwf0 hv hlen hnd hproc hcs horder outA outB
+    hA hB j id c hid hcell
+
+example : ∃ outA outB,
+    mapPipeline (fromRecordsRaw [0, 1, 2] [[10, 20, 30], [10, 21, 31], [11, 22, 32], [10, 20, 33]])
+      { dropLevel := none, flatten := true, chunkSize := 2, nProc := 2 } exVote [7, 3] [0, 1] [1, 0]
+      = .ok outA ∧
+    mapPipeline (fromRecordsRaw [2] [[30], [31], [32], [33]])
+      { dropLevel := none, flatten := false, chunkSize := 2, nProc := 2 } exVote [7, 3] [0, 1] [1, 0]
+      = .ok outB ∧
+    ∀ (j : Nat) (id : CellId) (c : Nat), [7, 3][j]? = some id → [0, 1][j]? = some c →
+      ∃ a b, outA[j]? = some a ∧ outB[j]? = some b ∧ a.cellId = b.cellId ∧
+        a.levels.lookup 2 = b.levels.lookup 2 ∧ (b.levels.lookup 2).isSome ∧
+        ∀ cp ∈ pairsOf [0, 1, 2].reverse,
+          ∃ ec pn, a.levels.lookup cp.1 = some ec ∧
+            (fromRecordsRaw [0, 1, 2] [[10, 20, 30], [10, 21, 31], [11, 22, 32],
+              [10, 20, 33]]).childToParent cp.1 ec.assignment = some pn ∧
+            a.levels.lookup cp.2 = some (inferred ec pn) :=
+  flatten_eq_reference_leaf_column [0, 1, 2] [[10, 20, 30], [10, 21, 31], [11, 22, 32], [10, 20, 33]]
+    { chunkSize := 2, nProc := 2 } exVote [7, 3] [0, 1] [1, 0] (by decide) (by decide)
+    (by intro r hr; simp at hr; rcases hr with rfl | rfl | rfl | rfl <;> rfl)
+    (by
+      intro j hj r hr r' hr' h
+      simp only [List.mem_cons, List.not_mem_nil, or_false] at hr hr'
+      have hj' : j = 0 ∨ j = 1 := by simp at hj; omega
+      rcases hj' with rfl | rfl <;> rcases hr with rfl | rfl | rfl | rfl <;>
+        rcases hr' with rfl | rfl | rfl | rfl <;> simp_all)
+    (by simp) (exVote_ok _) rfl (by decide) (by decide) (by decide) (by decide)
+
 end CTM.C17
